@@ -74,6 +74,17 @@ func main() {
 	p.rootsAreExits = true
 	// returning from a helper into one of the two event loops ends the per-event activity;
 	// returning into the dispatcher or the client call continues that call's activity
+	p.boundary = map[ssa.Instruction]bool{}
+	for _, u := range usesOfKind(p.uses(r.FRequests), "select-recv", "recv") {
+		if r.FnLoop != nil && outermost(u.Fn) == r.FnLoop {
+			p.boundary[u.At] = true
+		}
+	}
+	for _, u := range usesOfKind(p.uses(r.FQueue), "select-recv", "recv") {
+		if r.FnExec != nil && outermost(u.Fn) == r.FnExec {
+			p.boundary[u.At] = true
+		}
+	}
 	p.loopRoots = map[*ssa.Function]bool{}
 	for _, f := range []*ssa.Function{r.FnLoop, r.FnExec} {
 		if f != nil {
